@@ -237,6 +237,11 @@ def r2_r4_orderedset(rep, src, tier='quick'):
         ('order_after', [B, Z], None, 'KeyError'),
     ]
     cases = [(o, a, w, e, base) for o, a, w, e in cases]
+    # boundary shapes: the only key (head is tail), two keys (the moved key is head or tail and so is the reference)
+    cases += [('order_first', [A2], ['Alpha'], None, [A]), ('order_last', [A2], ['Alpha'], None, [A]), ('remove', [A2], [], None, [A]),
+              ('add', [A2], ['Alpha'], None, [A]), ('add', [Z], ['Zeta'], None, []),
+              ('order_first', [B], ['Beta', 'Alpha'], None, [A, B]), ('order_last', [A2], ['Beta', 'Alpha'], None, [A, B]),
+              ('order_before', [B, A2], ['Beta', 'Alpha'], None, [A, B]), ('order_after', [A2, B], ['Beta', 'Alpha'], None, [A, B])]
     if tier == 'thorough':
         # every operation with every combination of present (other spelling) / absent arguments on sets of 0..4 keys,
         # expected outcome from a reference model (python list of spellings)
@@ -428,6 +433,40 @@ def r1_key_normalisation(rep, src):
         else:
             rep.ok(rule, fn.site, what, 'result %r, keys %s' % (got, order))
     rep.analysed['call_sites'] += n
+    # copy(): a mapping whose key order was changed after the keys were inserted (order_last) copies in its *current* order, with
+    # the same values; the constructor is interpreted (items() of the abstract base is iteration + item access)
+    heap, me, d, lst, table = world()
+    itp = H.Interp(heap)
+
+    def items_hook(it, args, kw):
+        obj = args[0]
+        fi = heap.module.method('Deb822Dict', '__iter__')
+        gi = heap.module.method('Deb822Dict', '__getitem__')
+        keys = it.seq(it.call(H.Closure(fi.node, {}, obj, fi.cls), []))
+        return it.h.new_list([(k, it.call(H.Closure(gi.node, {}, obj, gi.cls), [k])) for k in keys])
+    heap.hooks['.items'] = items_hook
+    heap.hooks['_AutoDecoder'] = lambda it, a, k: it.h.alloc('Decoder', {})
+    heap.hooks['super'] = lambda it, a, k: ('super',)
+    fcopy = heap.module.method('Deb822Dict', 'copy')
+    fol = heap.module.method('Deb822Dict', 'order_last')
+    what = 'Deb822Dict.copy() after order_last(Alpha) on {Alpha, Beta}'
+    try:
+        itp.call(H.Closure(fol.node, {}, me, fol.cls), ['Alpha'])
+        cp = itp.call(H.Closure(fcopy.node, {}, me, fcopy.cls), [])
+        order2, vals2, problems2 = state(heap, d, lst, table, cp)
+        bad = list(problems2)
+        if order2 != ['Beta', 'Alpha']:
+            bad.append('the copy lists its keys as %s, the original (after the re-ordering) as [\'Beta\', \'Alpha\']' % order2)
+        if vals2 != {'Alpha': 'v-alpha', 'Beta': 'v-beta'}:
+            bad.append('the copy holds %r' % (vals2,))
+        if cp == me:
+            bad.append('copy() returns the mapping itself')
+        if bad:
+            rep.fail('C09.R2', fcopy.site, what, '; '.join(bad), where=fcopy.where)
+        else:
+            rep.ok('C09.R2', fcopy.site, what, 'same order and values, separate object')
+    except H.Raised as x:
+        rep.fail('C09.R2', fcopy.site, what, 'raises %s (line %d)' % (x.exc, x.lineno), where=fcopy.where)
     # case-insensitive string: hash and equality from the same lower-cased text, str() gives the original
     from .. import paths
     c = src.mod(UT)
